@@ -85,7 +85,21 @@ func genQuery(r *Rng, m *qMeta) []string {
 	G := m.Groups
 	small := !m.Big
 	for {
-		switch r.Intn(45) {
+		switch r.Intn(50) {
+		case 45:
+			// ties without a tie-breaker: the order of equal keys must not depend on the workers
+			return []string{"SELECT id, g FROM a ORDER BY g;", "SELECT id, v FROM a ORDER BY v DESC LIMIT 7;", "SELECT id, RANK() OVER (PARTITION BY g ORDER BY v) AS rk, FIRST_VALUE(s) OVER (PARTITION BY g ORDER BY v) AS fv, LAST_VALUE(id) OVER (PARTITION BY g ORDER BY v) AS lv FROM a;"}
+		case 46:
+			// accumulation order: floats, and lists without an explicit order
+			return []string{"SELECT g, SUM(v * 0.1), AVG(v / 3.0), SUM(FLOAT(id) / 7) FROM a GROUP BY g;", "SELECT SUM(v * 0.1), AVG(id / 3.0) FROM a;", "SELECT g, LISTAGG(s, ','), JSON_AGG(id) FROM a GROUP BY g;", "SELECT id, SUM(v * 0.1) OVER (PARTITION BY g) AS fs, LISTAGG(s, '') OVER (PARTITION BY g) AS ls FROM a;"}
+		case 47:
+			// de-duplication across chunk boundaries, first occurrence kept
+			return []string{"SELECT g, v % 2 FROM a UNION SELECT g, w % 2 FROM b;", "SELECT g, s FROM a EXCEPT SELECT g, 'cat' FROM b;", "SELECT g FROM a INTERSECT SELECT g FROM b;", "SELECT DISTINCT s, g FROM a;", "SELECT g, s FROM a EXCEPT ALL SELECT g, s FROM a WHERE id % 2 = 0;"}
+		case 48:
+			// duplicate join keys: the order of the matches
+			return []string{"SELECT a.id, b.id FROM a JOIN b ON a.g = b.g;", "SELECT a.id, b.id FROM a LEFT JOIN b ON a.g = b.g AND b.w > 10;", "SELECT a.id, x.id FROM a JOIN a x ON a.g = x.g AND a.v = x.v;"}
+		case 49:
+			return []string{"INSERT INTO a SELECT id + 20000, g, v, s FROM a WHERE v IS NOT NULL;", "REPLACE INTO a (id, g, v, s) USING (id) SELECT id, g, v + 1, UPPER(s) FROM a WHERE id % 3 = 0;", "DELETE FROM a WHERE v IS NULL OR id % 11 = 5;", "SELECT * FROM a;"}
 		case 43, 44:
 			on := r.PickS("a.g = b.g", "a.g = b.g AND a.v > b.w", "a.id % 7 = b.id % 7")
 			return []string{fmt.Sprintf("SELECT a.id, b.id FROM a FULL OUTER JOIN b ON %s;", on), fmt.Sprintf("SELECT COUNT(*) FROM a RIGHT OUTER JOIN b ON %s;", on)}
